@@ -333,7 +333,7 @@ type ctxSite struct{ fn, path, bind, built string }
 //     loadTracer, buildCache) and the package-level variables.
 func (p *pkg) emitLifetimes(b *strings.Builder) {
 	var sites []ctxSite
-	var stores, calls, rebinds, envWrites, loadedStores, paramWrites, callEdges, mapKeys []string
+	var stores, calls, rebinds, envWrites, loadedStores, paramWrites, callEdges, mapKeys, creates []string
 	pkgFuncs := map[string]bool{}
 	for _, fd := range p.allFuncs() {
 		pkgFuncs[fd.Name.Name] = true
@@ -492,6 +492,19 @@ func (p *pkg) emitLifetimes(b *strings.Builder) {
 					}
 				}
 			case *ast.CallExpr:
+				// file-creating calls and where their path comes from: (function, call, first argument)
+				if sel, ok := x.Fun.(*ast.SelectorExpr); ok {
+					if id, ok := sel.X.(*ast.Ident); ok && (id.Name == "os" || id.Name == "ioutil") {
+						switch sel.Sel.Name {
+						case "Create", "CreateTemp", "MkdirTemp", "WriteFile", "OpenFile", "TempFile", "TempDir", "Mkdir", "MkdirAll", "Rename", "Symlink", "Link":
+							arg := ""
+							if len(x.Args) > 0 {
+								arg = p.src(x.Args[0])
+							}
+							creates = append(creates, fmt.Sprintf("(%s, %s, %s)", coqStr(fname), coqStr(id.Name+"."+sel.Sel.Name), coqStr(arg)))
+						}
+					}
+				}
 				// call graph of the package (callee by base name) with the os stat calls as leaves
 				callee := ""
 				switch f := x.Fun.(type) {
@@ -557,6 +570,8 @@ func (p *pkg) emitLifetimes(b *strings.Builder) {
 	// every append / copy / sort whose first argument is a slice parameter:
 	// (function, kind, statement)
 	fmt.Fprintf(b, "Definition param_writes : list (string * string * string) :=\n  %s.\n\n", coqList(paramWrites))
+	// every file-creating call of the package: (function, call, first argument)
+	fmt.Fprintf(b, "Definition file_creates : list (string * string * string) :=\n  %s.\n\n", coqList(creates))
 	// key expressions of the hashed maps: (function, map, key expression)
 	fmt.Fprintf(b, "Definition digest_map_keys : list (string * string * string) :=\n  %s.\n\n", coqList(mapKeys))
 	// call graph: (caller, caller's base name, callee's base name); os.Stat /
